@@ -23,6 +23,7 @@ from common import short
 from gen import api_walk, texts
 
 MODELS = ['Validate', 'ApiHelpers']
+MODEL_TARGETS = ['JediModel.Lemmas.ValidateSpec', 'JediModel.Model.ApiHelpers']
 MANIFEST = dict(
     text='Theorems over the model of helpers.validate_line_column, instantiated with the operators, bounds, '
          'defaults, endswith table and exception classes the translator reads from the source: closed form, '
